@@ -184,6 +184,18 @@ func catalogue() []SItem {
 			{Tag: "le", Kind: "edit:cmp-only", Body: "if a <= 0 {\n\t\tpanic(\"neg\")\n\t}\n\treturn a + 1"},
 		}})
 
+	// defined (named) integer and string types take part in the >=/> normalisation like their underlying types
+	add(SItem{Group: "B", Pre: "type FN_lv int", Par: P("a FN_lv, b FN_lv"), Ret: R("int"),
+		Body: "if a >= b {\n\t\treturn 1\n\t}\n\treturn 2",
+		Vars: []SVar{
+			{Tag: "neg", Kind: "refactor:cmp-swap", Par: P("a PFN_lv, b PFN_lv"), Body: "if a < b {\n\t\treturn 2\n\t}\n\treturn 1"},
+			{Tag: "arms", Kind: "edit:branch-swap", Par: P("a PFN_lv, b PFN_lv"), Body: "if a >= b {\n\t\treturn 2\n\t}\n\treturn 1"},
+		}})
+	add(SItem{Group: "B", Pre: "type FN_tag string", Par: P("a FN_tag, b FN_tag"), Ret: R("int"),
+		Body: "if a > b {\n\t\treturn 1\n\t}\n\treturn 2",
+		Vars: []SVar{
+			{Tag: "neg", Kind: "refactor:cmp-swap", Par: P("a PFN_tag, b PFN_tag"), Body: "if a <= b {\n\t\treturn 2\n\t}\n\treturn 1"},
+		}})
 	// floating-point comparisons: x >= y is NOT the negation of x < y (NaN), so the branch-swap
 	// normalisation must not apply; arithmetic is not reassociated either
 	for _, c := range []cmp{{">=", "<"}, {">", "<="}} {
